@@ -145,3 +145,15 @@ def run(ck, prog):
     _run_pre_progress(ck, prog)
     from sa import progress
     progress.run_rule(ck, prog, set(DIMENSION_FILES))
+
+
+_run_pre_cov = run
+
+
+def run(ck, prog):
+    _run_pre_cov(ck, prog)
+    from props import C03
+    C03.centred_cov(ck, prog)                  # Mahalanobis::new(data) is built on DenseMatrix::cov: centred products, 'large magnitudes'
+
+
+EXPLANATION += (" Mahalanobis::new(data): DenseMatrix::cov accumulates centred products (C03's rule, evaluated here as well).")
